@@ -69,6 +69,7 @@ type Contract struct {
 	Callsites []CallsiteSpec
 	Uses      []Clause
 	Opaque    map[string][]string // callee name -> ensures labels kept at its call sites
+	Dispatch  map[string][]string // interface type -> concrete types to split dynamic calls on
 	Decreases ast.Expr
 	Iface     bool
 	Src       string
@@ -129,7 +130,7 @@ func newContractSet() *ContractSet {
 var clauseKeywords = map[string]bool{
 	"func": true, "interface": true, "extern": true, "type": true, "ghost": true, "spec": true, "lemma": true, "syncmap": true,
 	"props": true, "requires": true, "ensures": true, "modifies": true, "nopanic": true, "maypanic": true,
-	"inline": true, "assumed": true, "pure": true, "use": true, "deterministic": true, "noworld": true, "opaque": true, "loop": true, "range": true, "callsite": true, "decreases": true,
+	"inline": true, "assumed": true, "pure": true, "use": true, "deterministic": true, "noworld": true, "opaque": true, "dispatch": true, "loop": true, "range": true, "callsite": true, "decreases": true,
 }
 
 func firstWord(s string) string {
@@ -485,6 +486,16 @@ func (c *Contract) addClause(kw, rest string) error {
 		c.Determ = true
 	case "noworld":
 		c.NoWorld = true
+	case "dispatch":
+		// dispatch <Iface> <T1> <T2> ...: calls on a value of static type Iface are split on these dynamic types
+		f := strings.Fields(rest)
+		if len(f) < 2 {
+			return fmt.Errorf("dispatch needs an interface and at least one concrete type")
+		}
+		if c.Dispatch == nil {
+			c.Dispatch = map[string][]string{}
+		}
+		c.Dispatch[f[0]] = append(c.Dispatch[f[0]], f[1:]...)
 	case "opaque":
 		// opaque <callee> [keep label ...]: at calls of callee only the listed ensures are assumed
 		f := strings.Fields(rest)
